@@ -286,7 +286,9 @@ class Recognizer(IRecognizer):
                             break
                     else:
                         if required:
-                            keys = [kn.value for kn, _ in node.value]
+                            keys = [
+                                    kn.value for kn, _ in node.value
+                                    if isinstance(kn, yaml.ScalarNode)]
                             message = diagnose_missing_key(
                                     attr_name, keys, expected_type)
                             message = '{}{}'.format(loc_str, message)
